@@ -338,11 +338,13 @@ def scheduler_cases(chk, rng, n):
     (executes steps on the task's scripted environment until its episode limit or the budget)."""
     from collections import namedtuple
 
+    from common import llit, nlit
     from rl_blox.algorithm.active_mt import train_active_mt
     from rl_blox.algorithm.uniform_task_sampling import train_uts
     from rl_blox.blox.multitask import DiscreteTaskSet
     from rl_blox.blox.replay_buffer import MultiTaskReplayBuffer, ReplayBuffer
     Res = namedtuple("Res", ["global_step"])
+    sched = []        # (model expression, case, [update steps, executed steps]) - the scheduler model of Model/Sched.v on the same call lengths
     for i in range(n):
         K = int(rng.integers(1, 4))
         budget = int(rng.integers(3, 30))
@@ -382,6 +384,8 @@ def scheduler_cases(chk, rng, n):
                                 exploring_starts=warm, progress_bar=False)
         if ok:
             total_env = sum(len(e.step_events()) for e in envs)
+            lens = [b - a for a, b in executed["calls"]]
+            sched.append((f"(sp (sl sn) sn (M.sched_run M.PassThrough {nlit(warm)} {nlit(budget)} {llit(lens, nlit)} {nlit(0)}))", case, [executed["updates"], total_env]))
             if executed["updates"] != list(range(warm, total_env)):
                 chk.fail("C11:train_uts:update-before-warmup", "the backbone (which updates once its step counter has reached the learning_starts it is given) "
                          "updated before the scheduler's exploring_starts steps had been executed, or not from then on",
@@ -397,7 +401,7 @@ def scheduler_cases(chk, rng, n):
                 return envs2[int(k)]
         rb = MultiTaskReplayBuffer(ReplayBuffer(10), K)
 
-        updates2 = []
+        updates2, calls2 = [], []
 
         def train_st2(env, total_timesteps, total_episodes=None, global_step=0, learning_starts=0, **kw):
             step, eps = global_step, 0
@@ -412,6 +416,7 @@ def scheduler_cases(chk, rng, n):
                     if total_episodes is not None and eps >= total_episodes:
                         break
                     env.reset()
+            calls2.append((global_step, step))
             return Res(step)
         interval = int([1, 2, 3, 4][i % 4])     # the budget may run out after some, but not all, episodes of a scheduling interval
         case2 = {"scheduler": "train_active_mt", "n_tasks": K, "budget": budget, "episode_lengths": [e.script[0][0] for e in envs2], "scheduling_interval": interval,
@@ -421,6 +426,7 @@ def scheduler_cases(chk, rng, n):
         if ok:
             _, per_task = out
             total_env = sum(len(e.step_events()) for e in envs2)
+            sched.append((f"(sp (sl sn) sn (M.sched_run M.PassThrough {nlit(warm)} {nlit(budget)} {llit([b - a for a, b in calls2], nlit)} {nlit(0)}))", case2, [updates2, total_env]))
             if updates2 != list(range(warm, total_env)):
                 chk.fail("C11:train_active_mt:update-before-warmup", "the backbone updated before the scheduler's learning_starts steps had been executed, or not from then on",
                          {"case": case2, "update_steps": updates2, "expected": [warm, total_env]})
@@ -428,6 +434,10 @@ def scheduler_cases(chk, rng, n):
             if total_env > budget or int(np.sum(per_task)) != total_env or list(map(int, per_task)) != per_env:
                 chk.fail("C11:train_active_mt:totals", "per-task step totals do not sum to the steps actually executed (or exceed the budget)",
                          {"case": case2, "per_task_reported": list(map(int, per_task)), "per_task_executed": per_env, "budget": budget})
+    for (_, case, impl), m in zip(sched, chk.model_eval([e for e, _, _ in sched], per_file=60)):
+        if m != impl:
+            chk.disagree("scheduler-warmup", {"case": case, "impl": impl, "model": m})
+    chk.count("scheduler_model_cases", len(sched))
 
 
 def main(chk):
